@@ -1194,17 +1194,21 @@ func r01_8(c *Ctx) {
 // R01.9: line-level scanning shape (FieldParser.Next, BOM, CRLF)
 
 func init() {
-	register(&Rule{ID: "R01.9", Title: "line-level scanning shape: FieldParser.Next consumption, single BOM strip, CRLF as one terminator", Floor: 8, Run: r01_9})
+	register(&Rule{ID: "R01.9", Title: "FieldParser.Next consumes exactly one terminated line per step", Floor: 5, Run: func(c *Ctx) { r01_9(c, "next") }})
+	register(&Rule{ID: "R01.10", Title: "the BOM is stripped at most once, only at the start of the first token", Floor: 3, Run: func(c *Ctx) { r01_9(c, "bom") }})
+	register(&Rule{ID: "R01.11", Title: "CR LF counts as one line terminator", Floor: 1, Run: func(c *Ctx) { r01_9(c, "crlf") }})
 	p := properties["C01"]
-	p.Rules = append(p.Rules, "R01.9")
+	p.Rules = append(p.Rules, "R01.9", "R01.10", "R01.11")
 	p.Explanation += " R01.9 line-level shape: FieldParser.Next consumes exactly the line NextChunk returned and hands that line to scanSegment, reports ErrUnexpectedEOF (without consuming) exactly when the remaining data has no line break, returns true only when scanSegment accepted a field and false only when the data is exhausted; the BOM (EF BB BF) is stripped only under removeBOM && !started && HasPrefix, marking the parser started, and the stream parser disables the strip once a token was started; NewlineIndex reports length 2 exactly for CR immediately followed by LF inside the string."
 }
 
-func r01_9(c *Ctx) {
+func r01_9(c *Ctx, part string) {
 	P := c.P
 	// (a) FieldParser.Next
 	fn := P.Fn("(*parser.FieldParser).Next")
-	if fn == nil || len(fn.Params) != 2 {
+	if part != "next" {
+		// handled below
+	} else if fn == nil || len(fn.Params) != 2 {
 		c.anchor("(*parser.FieldParser).Next")
 	} else {
 		recv, out := fn.Params[0], fn.Params[1]
@@ -1298,6 +1302,13 @@ func r01_9(c *Ctx) {
 				}
 			}
 		}
+	}
+	if part == "next" {
+		return
+	}
+	if part == "crlf" {
+		r01_9crlf(c)
+		return
 	}
 	// (b) BOM
 	bomFns := 0
@@ -1417,6 +1428,10 @@ func r01_9(c *Ctx) {
 		}
 		c.check(good, fnLabel(nx)+":bom-once", P.pos(nx.Pos()), "once a token was started BOM removal is disabled before the next token is installed; Reset receives the scanner's token", "the stream parser does not disable BOM removal after the first token (or Reset does not get the scanner's token): a BOM at the start of a later event is stripped")
 	}
+}
+
+func r01_9crlf(c *Ctx) {
+	P := c.P
 	// (c) CRLF
 	ni := P.Fn("parser.NewlineIndex")
 	if ni == nil || len(ni.Params) != 1 {
